@@ -192,10 +192,19 @@ func (f *File) register(path string) string {
 		alias = true
 	}
 
-	// If the name is invalid or has been registered already, make it unique by appending a number
+	// Only add a prefix if the name is an alias (a changed name is always an alias)
+	final := func(candidate string) string {
+		if f.PackagePrefix != "" && (alias || candidate != name) {
+			return f.PackagePrefix + "_" + candidate
+		}
+		return candidate
+	}
+
+	// If the name is invalid or has been registered already, make it unique by appending a number.
+	// The name that will finally be registered (with the prefix) must be unique too.
 	unique := name
 	i := 0
-	for !f.isValidAlias(unique) {
+	for !f.isValidAlias(unique) || !f.isValidAlias(final(unique)) {
 		i++
 		unique = fmt.Sprintf("%s%d", name, i)
 	}
@@ -205,10 +214,7 @@ func (f *File) register(path string) string {
 		alias = true
 	}
 
-	// Only add a prefix if the name is an alias
-	if f.PackagePrefix != "" && alias {
-		unique = f.PackagePrefix + "_" + unique
-	}
+	unique = final(unique)
 
 	// Register the eventual name
 	f.imports[path] = importdef{name: unique, alias: alias}
